@@ -24,7 +24,11 @@ META = dict(
                 "single-qubit Paulis sigma_i with the sector eigenvalues, V = U Emb is an isometry (V^dag V = 1) that "
                 "intertwines, H V = V H_tapered; hence every eigenvalue of the tapered operator is an eigenvalue of H. "
                 "Every symmetry generator commutes with every Hamiltonian term, the sector eigenvalues are those of the "
-                "encoded reference determinant of (n_electrons, spin), and the register shrinks by the number of symmetries. "
+                "encoded reference determinant of (n_electrons, spin), that determinant lies in range(V) (so the retained sector is "
+                "the one the caller asked for, whatever order the code visits the generators in), and the register shrinks by the "
+                "number of symmetries. PySCF molecules (closed shell, doublet, triplet): the tapered spectrum equals the spectrum of "
+                "H in the reference sector (projector built from the kernel rows; numpy, 1e-8). aux/product-large: the "
+                "MultiformOperator product behind U*H*U on tables of more than 2**15 / 2**16 rows (enumerated, vs openfermion). "
                 "(2) trim_trivial_qubits: circuits = arbitrary entangled part with SYMBOLIC angles (x) wires that the code "
                 "classifies as idle / flipped / phase-only; operator with SYMBOLIC coefficients: <op>_full == <op_trim>_trimmed. "
                 "(3) frobenius_norm_compression(eps, n): diagonal operators with SYMBOLIC coefficients and SYMBOLIC eps on "
@@ -132,6 +136,14 @@ def h_taper(env, n_orbs, mapping, utd, ne, spin, canary=False):
     for b in range(2 ** nr):
         for b2 in range(b, 2 ** nr):
             env.check_eq(R.inner(cols[b], cols[b2]), 1 if b == b2 else 0, f"V^dag V = 1 (columns {b},{b2})")
+    # the retained sector is the one of the reference determinant: |ref> lies in range(V), sum_b |<V b|ref>|^2 = 1
+    ridx = int("".join(map(str, ref)), 2)
+    weight = R.C(0)
+    for b in range(2 ** nr):
+        a = cols[b][ridx]
+        weight = weight + a * R.n_conj(a)
+    env.check_eq(weight, 1, f"the encoded reference determinant {ref} lies in the retained subspace range(V)  [{mapping}, up_then_down={utd}, "
+                            f"n_electrons={ne}, spin={spin}]")
     for b in range(2 ** nr):
         lhs = R.apply_qubit_operator(cols[b], n, Hq)
         htb = R.apply_qubit_operator(R.basis_state(nr, b), nr, Htt) if nr > 0 else [Htt.get((), R.C(0))]
@@ -152,7 +164,7 @@ def h_taper_structure(env, molkey, mapping, utd):
     from tangelo.toolboxes.operators.z2_tapering import get_clifford_operators
     from tangelo.toolboxes.operators import count_qubits
     from harness.c07 import mol
-    from openfermion import get_sparse_operator
+    from openfermion import get_sparse_operator, QubitOperator as QubitOperatorOF
     with shim.concrete_mode():
         m = mol(molkey)
         n = m.n_active_sos
@@ -182,6 +194,29 @@ def h_taper_structure(env, molkey, mapping, utd):
         ev_tap = np.linalg.eigvalsh(get_sparse_operator(Ht, n_qubits=n - k).toarray()) if n - k > 0 else np.array([Ht.terms.get((), 0.0).real])
         worst = max(min(abs(e - f) for f in ev_full) for e in ev_tap)
         env.check_true(worst < 1e-8, "every eigenvalue of the tapered operator is an eigenvalue of the original (numerical, 1e-8)", detail=str(worst))
+        # the retained sector is that of the reference determinant: with the code's unitary, tapered qubits and eigenvalues,
+        # |ref> lies in range(U Emb); and the lowest tapered eigenvalue is the lowest eigenvalue of H in the joint eigenspace
+        # tau_i = <ref|tau_i|ref> (projector built from the kernel rows, independent of the code's ordering choices)
+        from tangelo.toolboxes.qubit_mappings.statevector_mapping import get_vector
+        ref = [int(b) for b in get_vector(n, m.n_active_electrons, mapping, utd, m.active_spin)]
+        ridx = int("".join(map(str, ref)), 2)
+        dim = 2 ** n
+        P = np.eye(dim, dtype=complex)
+        for t_ in taus:
+            T = get_sparse_operator(QubitOperatorOF(tuple(sorted(t_.items()))), n_qubits=n).toarray()
+            e_ = T[ridx, ridx].real
+            P = P @ (np.eye(dim) + e_ * T) / 2.0
+        Hfull = get_sparse_operator(qH.to_qubitoperator() if hasattr(qH, "to_qubitoperator") else qH, n_qubits=n).toarray()
+        w_, v_ = np.linalg.eigh(P)
+        B = v_[:, w_ > 0.5]
+        e_sector = np.linalg.eigvalsh(B.conj().T @ Hfull @ B)
+        env.check_true(abs(P[ridx, ridx] - 1.0) < 1e-9, "reference determinant is a joint eigenvector of the generators")
+        env.check_true(abs(float(ev_tap.min()) - float(e_sector.min())) < 1e-8,
+                       "lowest eigenvalue of the tapered operator == lowest eigenvalue of H in the symmetry sector of the reference determinant (1e-8)",
+                       detail=f"tapered {float(ev_tap.min())} vs sector {float(e_sector.min())}")
+        env.check_true(len(ev_tap) == len(e_sector) and float(np.abs(np.sort(ev_tap) - np.sort(e_sector)).max()) < 1e-8,
+                       "spectrum of the tapered operator == spectrum of H restricted to the sector of the reference determinant (1e-8)",
+                       detail=f"{len(ev_tap)} vs {len(e_sector)} eigenvalues")
         # (a) the same tapering object applied to ANOTHER operator with the same Pauli words (another geometry): the result's
         #     eigenvalues are eigenvalues of THAT operator; (b) the documented per-call `eigenvalues` argument selects the sector:
         #     over all 2^k sign patterns the tapered spectra together are exactly the spectrum of the original
@@ -330,8 +365,32 @@ def h_compress_aux(env, n, n_terms, seed):
             env.check_true(0 < len(after) < len(before) or n_terms < 4, "the chosen eps drops some terms and keeps others", detail=f"{len(before)} -> {len(after)}")
 
 
+def h_product_large(env, n, n_a, n_b, seed):
+    """AUXILIARY concrete shape (no solver role; the index arithmetic lives in numpy): the MultiformOperator product that the
+    tapering rotation U*H*U is made of, for operand sizes whose (term, term) table has MORE than 2**15 (and, thorough, 2**16) rows:
+    the product equals the openfermion product of the same two operators, coefficient by coefficient (1e-9)"""
+    from tangelo.toolboxes.operators import QubitOperator, MultiformOperator
+    rnd = random.Random(31 * n + n_a + 7 * n_b + seed)
+    with shim.concrete_mode():
+        def rand_op(k):
+            op = QubitOperator()
+            while len(op.terms) < k:
+                w = tuple((q, p) for q in range(n) for p in [rnd.choice("IXYZ")] if p != "I")
+                op.terms[w] = rnd.choice([1, -1]) * rnd.randint(1, 64) / 64.0
+            return op
+        a, b = rand_op(n_a), rand_op(n_b)
+        ref = a * b
+        got = (MultiformOperator.from_qubitop(a, n) * MultiformOperator.from_qubitop(b, n)).qubitoperator
+        keys = set(k_ for k_, v in ref.terms.items() if abs(v) > 1e-12) | set(k_ for k_, v in got.terms.items() if abs(v) > 1e-12)
+        dev = max([abs(complex(ref.terms.get(k_, 0)) - complex(got.terms.get(k_, 0))) for k_ in keys] or [0.0])
+        env.check_true(dev < 1e-9, f"MultiformOperator product with {n_a} x {n_b} = {n_a * n_b} (term, term) rows on {n} qubits == openfermion product (1e-9)",
+                       detail=f"max coefficient deviation {dev} over {len(keys)} words")
+
+
 def shapes(tier, seed):
     out = []
+    for (n_, na_, nb_) in ((6, 16, 2100), (5, 200, 200)) + (((6, 300, 300), (5, 1, 1000), (7, 70000 // 64, 64)) if tier == "thorough" else ()):
+        out.append(Shape(f"aux/product-large/n{n_}/{na_}x{nb_}", h_product_large, dict(n=n_, n_a=na_, n_b=nb_, seed=seed), modules=()))
     taper = [(2, "jw", False, 2, 0), (2, "jw", True, 2, 0), (2, "bk", False, 2, 0), (2, "bk", True, 2, 0), (2, "jkmn", False, 2, 0), (3, "jkmn", False, 2, 0),
              (2, "jkmn", True, 2, 0)]
     if tier == "thorough":
@@ -339,9 +398,9 @@ def shapes(tier, seed):
     for (no, mp, utd, ne, sp) in taper:
         out.append(Shape(f"taper/o{no}/{mp}/utd={int(utd)}/e{ne}s{sp}", h_taper, dict(n_orbs=no, mapping=mp, utd=utd, ne=ne, spin=sp),
                          modules=MODS, max_paths=16))
-    for mk in (("H4",) if tier == "quick" else ("H4", "H4+", "H2")):
+    for mk in (("H4", "H4+", "H4t") if tier == "quick" else ("H4", "H4+", "H4t", "H2", "H2t")):
         for mp in ("jw", "bk", "jkmn"):
-            for utd in (False, True):
+            for utd in ((False, True) if (mk == "H4" or tier == "thorough") else (False,)):
                 out.append(Shape(f"taper_structure/{mk}/{mp}/utd={int(utd)}", h_taper_structure, dict(molkey=mk, mapping=mp, utd=utd), modules=()))
     out.append(Shape("canary/taper", h_taper, dict(n_orbs=2, mapping="jw", utd=False, ne=2, spin=0, canary=True), modules=MODS, max_paths=16, canary=True))
     layouts = [
